@@ -13,6 +13,17 @@ acknowledgement):
      `Args.send (Msg.packet m)` of the model (`_to_dict` for msgpack), and the model's prediction
      `Args.deliver` / `Args.deliverMP` / `callResult` on its own frames equals the observed
      invocations and results.
+
+Concurrent bursts (asyncio pairings, `deliver: 'tasks'`): the burst of emit/send is delivered the way
+the real engine.io cores deliver it (`E2EWorld.pump_concurrent`: one task per message towards the
+client, socket.io's own handler tasks on the server with `async_handlers=True`, scripted loop turns
+between the packets, the loop's default executor owned by the harness and only served when the loop is
+idle) to handlers that are a mix of plain functions and coroutine functions.  The oracle is the order
+clause: the handlers START in the order the messages were sent (recorded at handler entry), every
+message is handled exactly once with its arguments and every handler that started also finished;
+acknowledgements may come back in any order (the handlers finish in any order), each exactly once.
+The correspondence is kept: forward frames and predicted deliveries as before, the acknowledgement
+frames are the model's frame groups in the order of completion (any permutation of whole groups).
 """
 import itertools
 import json
@@ -151,7 +162,49 @@ def gen_burst(rng, cfg, nss, n=None):
             if msgs[-1]['cb']:
                 m['cb'] = True
         msgs.append(m)
-    return {'side': side, 'msgs': msgs}
+    burst = {'side': side, 'msgs': msgs}
+    if cfg['mode'] == 'asyncio' and rng.random() < 0.45:
+        concurrent(burst, rng)
+    return burst
+
+
+def concurrent(burst, rng=None, gaps=None, exec_lifo=False):
+    """Mark the burst for concurrent delivery: consecutive emit/send (call() waits for its answer before the
+    next message is sent: nothing to interleave), loop turns between the arriving packets, the order in which
+    a thread pool would serve two waiting jobs."""
+    for m in burst['msgs']:
+        if m['kind'] == 'call':
+            m['kind'] = 'emit'
+    burst['deliver'] = 'tasks'
+    if rng is not None:
+        gaps = [rng.choice([0, 0, 0, 0, 1, 1, 2, 3, 7]) for _ in range(rng.randint(1, 12))]
+        if rng.random() < 0.3:
+            gaps = [0]                      # the whole burst in one polling payload
+        exec_lifo = rng.random() < 0.5
+    burst['gaps'] = gaps or [0]
+    burst['exec_lifo'] = bool(exec_lifo)
+    return burst
+
+
+def mixed_handler_bursts(cfg, nss):
+    """asyncio: every arrangement of 2 and 3 consecutive messages over {plain function, coroutine} handlers,
+    with and without acknowledgement, text and binary payloads, packets back to back and a loop turn apart."""
+    out = []
+    datas = [['t', 1], [{'k': b'\x01\x02'}, b'\x03'], 'x', {'d': [b'', b'\x04']}]
+    k = 0
+    for side in ('client', 'server'):
+        for n in (2, 3):
+            for kinds in itertools.product([False, True], repeat=n):
+                for ack in (False, True):
+                    msgs = []
+                    for i, coro in enumerate(kinds):
+                        k += 1
+                        msgs.append({'kind': 'emit', 'ev': 'co' if coro else 'fn', 'data': (datas[k % 4], i),
+                                     'ns': nss[(k // 3) % len(nss)], 'cb': ack, 'ret': (i, datas[(k + 1) % 4]),
+                                     'coro': coro})
+                    out.append(concurrent({'side': side, 'msgs': msgs}, gaps=[[0], [1], [0, 2]][k % 3],
+                                          exec_lifo=k % 2 == 0))
+    return C.unjsonable(C.jsonable(out))
 
 
 def corner_bursts(cfg, nss):
@@ -177,6 +230,9 @@ def corner_bursts(cfg, nss):
             reuse.append({'kind': kind, 'ev': 'message' if kind == 'send' else 'again', 'data': obj, 'ns': nss[-1],
                           'cb': True, 'ret': tup, 'coro': i == 1, 'same_data': i > 0, 'same_ret': i > 0})
         out.append({'side': side, 'msgs': C.unjsonable(C.jsonable(reuse))})
+    if cfg['mode'] == 'asyncio':
+        out += [concurrent(b, gaps=[0, 1, 0, 0, 2], exec_lifo=i % 2 == 1)
+                for i, b in enumerate(C.unjsonable(C.jsonable(out)))]
     return out
 
 
@@ -207,8 +263,9 @@ class Session:
         sent = []
         held = []                # the application's own objects: (payload passed, value the handler returns)
         prev = [None, None]
+        kinds = []               # what the receiving handler of each message really is (first registration wins)
         for m in burst['msgs']:
-            w.handler(peer, m['ns'], m['ev'], coro=m['coro'])
+            kinds.append(w.handler(peer, m['ns'], m['ev'], coro=m['coro']))
             # m['data'] / m['ret'] are never handed to the library: they are the deep copies the
             # oracle judges against.  The application's object is a separate copy — or, for
             # `same_data` / `same_ret`, the very object used for the previous message.
@@ -232,13 +289,17 @@ class Session:
                     cb = w.callback(side, tok, coro=m['coro'])
                 res = w.emit(side, m['ev'], data, m['ns'], cb=cb, use_send=(m['kind'] == 'send'))
             sent.append({'id': mid, 'tok': tok, 'res': res})
-        w.pump()
+        conc = None
+        if burst.get('deliver') == 'tasks':
+            conc = w.pump_concurrent(burst.get('gaps') or [0], burst.get('exec_lifo', False))
+        else:
+            w.pump()
         leftover = list(w.rets[peer])
         w.rets[peer] = []
         wire = w.take_wire()
         fwd, rev = ('c2s', 's2c') if side == 'client' else ('s2c', 'c2s')
         return {'sent': sent, 'log': w.log, 'errors': list(w.errors), 'fwd': wire[fwd], 'rev': wire[rev],
-                'leftover_rets': len(leftover), 'held': held}
+                'leftover_rets': len(leftover), 'held': held, 'kinds': kinds, 'concurrent': conc}
 
 
 def oracle(burst, obs):
@@ -257,8 +318,18 @@ def oracle(burst, obs):
         fails.append('handler invoked on the sending side')
     want = [[m['ns'], m['ev'], pack(m['data'])] for m in msgs]
     got = [[e[2], e[3], e[4]] for e in inv]
+    conc = burst.get('deliver') == 'tasks'
     if len(got) != len(want):
         fails.append('%d handler invocations for %d messages' % (len(got), len(want)))
+    elif got != want and sorted(map(repr, got)) == sorted(map(repr, want)):
+        # every message handled once with its arguments, but not in the order sent
+        idx, used = [], set()
+        for g in got:
+            j = next(j for j, x in enumerate(want) if j not in used and repr(x) == repr(g))
+            used.add(j)
+            idx.append(j)
+        fails.append('handlers of messages sent in the order %r STARTED in the order %r (handler kinds %r)'
+                     % (list(range(len(want))), idx, obs.get('kinds')))
     else:
         for i, (g, x) in enumerate(zip(got, want)):
             if g[:2] != x[:2]:
@@ -266,12 +337,37 @@ def oracle(burst, obs):
                              % (i, g[:2], x[:2]))
             elif not C.same(g[2], x[2]):
                 fails.append('message %d: handler arguments %r, sent %r' % (i, g[2], x[2]))
+    # every handler that started also returned; one after the other unless the burst was delivered concurrently
+    started = [e[5] for e in inv if len(e) > 5]
+    done = [e[2] for e in obs['log'] if e[0] == 'done']
+    if sorted(started) != sorted(done):
+        fails.append('handler invocations started %r, finished %r' % (started, done))
+    elif not conc:
+        seq = [(e[0], e[5] if e[0] == 'h' else e[2]) for e in obs['log'] if e[0] in ('h', 'done') and
+               (e[0] == 'done' or len(e) > 5)]
+        if seq != [(t, n) for n in started for t in ('h', 'done')]:
+            fails.append('handlers overlap although the messages are delivered one at a time: %r' % (seq[:8],))
+    if conc and obs.get('concurrent') and obs['concurrent']['stuck']:
+        fails.append('still unfinished when the loop had come to rest and no executor job was outstanding: %r'
+                     % (obs['concurrent']['stuck'][:4],))
     cbs = [e for e in obs['log'] if e[0] == 'cb']
     want_cb = [[s['tok'], pack(m['ret'])] for m, s in zip(msgs, obs['sent']) if s['tok'] is not None]
     got_cb = [[e[2], e[3]] for e in cbs]
     if any(e[1] != side for e in cbs):
         fails.append('callback invoked on the wrong side')
-    if [g[0] for g in got_cb] != [x[0] for x in want_cb]:
+    if conc:
+        # the handlers finish in any order, so do the acknowledgements: each exactly once, right arguments
+        if sorted(g[0] for g in got_cb) != sorted(x[0] for x in want_cb):
+            fails.append('callbacks invoked %r, expected each of %r once'
+                         % ([g[0] for g in got_cb], [x[0] for x in want_cb]))
+        elif got == want:
+            # (the scripted results are handed out at handler entry: they belong to the messages only when the
+            # handlers started in the order sent)
+            byt = dict((x[0], x[1]) for x in want_cb)
+            for g in got_cb:
+                if not C.same(g[1], byt[g[0]]):
+                    fails.append('callback %s received %r, handler returned %r' % (g[0], g[1], byt[g[0]]))
+    elif [g[0] for g in got_cb] != [x[0] for x in want_cb]:
         fails.append('callbacks invoked %r, expected %r (each once, in order)'
                      % ([g[0] for g in got_cb], [x[0] for x in want_cb]))
     else:
@@ -340,10 +436,12 @@ def model_view(drv, cfg, burst, obs):
             continue
         if mp:
             out[name] = [C.w2j(d) for d in r['dicts']]
+            out[name + '_groups'] = [[x] for x in out[name]]
             d = drv.ask({'op': 'c02_recv_mp', 'dicts': r['dicts']})
         else:
             fs = frames_of(r['groups'])
             out[name] = [frame_py(f) for f in fs]
+            out[name + '_groups'] = [[frame_py(f) for f in g] for g in r['groups']]
             text = ''.join(x for x in out[name] if isinstance(x, str))
             d = drv.ask({'op': 'c02_recv', 'frames': fs, 'cls': C.digit_table(text)})
         out[name + '_del'] = d
@@ -380,7 +478,21 @@ def correspond(cfg, burst, obs, mv):
         if isinstance(model, dict):
             diffs.append('model refuses the burst: %r' % (model,))
             continue
-        if len(real) != len(model) or not all(C.same(a, b) for a, b in zip(real, model)):
+        if name == 'rev' and burst.get('deliver') == 'tasks':
+            # the acknowledgements leave in the order the handlers finish: whole frame groups of the
+            # model, each once, in any order
+            groups = list(mv['rev_groups'])
+            k = 0
+            while k < len(real):
+                j = next((j for j, g in enumerate(groups) if len(g) <= len(real) - k and
+                          all(C.same(a, b) for a, b in zip(real[k:k + len(g)], g))), None)
+                if j is None:
+                    break
+                k += len(groups.pop(j))
+            if k < len(real) or groups:
+                diffs.append('rev wire is not a sequence of the model\'s acknowledgement frame groups: at frame %d of '
+                             '%d impl %r; model groups not seen %r' % (k, len(real), real[k:k + 1], groups[:2]))
+        elif len(real) != len(model) or not all(C.same(a, b) for a, b in zip(real, model)):
             k = next((i for i, (a, b) in enumerate(zip(real, model)) if not C.same(a, b)), min(len(real), len(model)))
             diffs.append('%s wire differs from the model at frame %d of %d/%d: impl %r model %r'
                          % (name, k, len(real), len(model), real[k:k + 1], model[k:k + 1]))
@@ -434,6 +546,29 @@ def cfg_name(cfg):
     return '%s.%s.%s' % (cfg['mode'], cfg['serializer'], cfg['framing'])
 
 
+def count_concurrent(ctx, cfg, burst, obs, stats):
+    info = obs['concurrent']
+    n = len(burst['msgs'])
+    stats['concurrent_bursts'] += 1
+    stats['concurrent_msgs'] += n
+    stats['concurrent_tasks'] += info['tasks']
+    stats['executor_jobs'] += info['executor_jobs']
+    ctx.count('concurrent.bursts')
+    ctx.count('concurrent.receiver.%s' % ('AsyncServer.async_handlers=%s' % cfg['async_handlers']
+                                          if burst['side'] == 'client' else 'AsyncClient'), n)
+    ctx.count('concurrent.gap_pattern.%s' % ('back_to_back' if not any(burst['gaps']) else 'loop_turns_between'))
+    kinds = obs['kinds']
+    for k in kinds:
+        ctx.count('concurrent.handler.%s' % k)
+    for a, b in zip(kinds, kinds[1:]):
+        ctx.count('concurrent.adjacent.%s_then_%s' % (a, b))
+    if len(set(kinds)) > 1:
+        ctx.count('concurrent.bursts_with_mixed_handlers')
+        stats['concurrent_mixed'] += 1
+    if any(len(f) and not isinstance(f, str) for f in obs['fwd']) and cfg['serializer'] != 'msgpack':
+        ctx.count('concurrent.bursts_with_binary_attachments')
+
+
 def run_case(ctx, drv, cfg, nss, bursts, stats):
     """One session; returns nothing, reports through ctx."""
     ses = Session(cfg, nss, ctx.rng)
@@ -448,6 +583,8 @@ def run_case(ctx, drv, cfg, nss, bursts, stats):
                 ctx.count('settle.%s' % cfg.get('settle', 'frame'), len(burst['msgs']))
             ctx.count('dir.%s' % burst['side'], len(burst['msgs']))
             ctx.count('burst_len.%d' % len(burst['msgs']))
+            if burst.get('deliver') == 'tasks':
+                count_concurrent(ctx, cfg, burst, obs, stats)
             for m in burst['msgs']:
                 ctx.count('kind.' + m['kind'])
                 ctx.count('ack.%s' % bool(m['cb']))
@@ -496,7 +633,7 @@ def shrink(ctx, cfg, nss, burst, rp):
     cands = [(i, [m]) for i, m in enumerate(burst['msgs'])]
     cands += [(i, burst['msgs'][i - 1:i + 1]) for i in range(1, len(burst['msgs']))]
     for i, ms in cands:
-        one = {'side': burst['side'], 'msgs': ms}
+        one = dict(burst, msgs=ms)
         try:
             ses = Session(cfg, nss, ctx.rng)
         except C.Infra:
@@ -551,7 +688,8 @@ def run(ctx):
                           no_input=True)
     rng = ctx.rng
     stats = {'bursts': 0, 'msgs': 0, 'validated': 0, 'frames': 0, 'nontrivial': set(), 'samples': [],
-             'b64_binary_packets': 0}
+             'b64_binary_packets': 0, 'concurrent_bursts': 0, 'concurrent_msgs': 0, 'concurrent_tasks': 0,
+             'executor_jobs': 0, 'concurrent_mixed': 0}
     drv = C.Driver('codec')
     try:
         boundary_note(ctx)
@@ -571,6 +709,11 @@ def run(ctx):
                 # the corners of the tuple/None/one rule, in every configuration
                 nss = ['/', rng.choice(NS_POOL)]
                 run_case(ctx, drv, cfg, nss, corner_bursts(cfg, nss), stats)
+                if mode == 'asyncio':
+                    # plain-function and coroutine handlers side by side, delivered concurrently
+                    mb = mixed_handler_bursts(cfg, nss)
+                    for i in range(0, len(mb), 12):
+                        run_case(ctx, drv, cfg, nss, mb[i:i + 12], stats)
                 for k in range(sessions):
                     if ah:
                         cfg = dict(cfg, settle='batch' if k % 2 == 0 else 'frame')
@@ -589,6 +732,11 @@ def run(ctx):
         'samples': stats['samples'], 'traces_validated_against_impl': stats['validated'],
         'frames_on_wire_compared_with_model': stats['frames'],
         'base64_framed_binary_packets': stats['b64_binary_packets'],
+        'concurrent_bursts': stats['concurrent_bursts'],
+        'concurrent_bursts_with_plain_and_coroutine_handlers': stats['concurrent_mixed'],
+        'concurrent_messages': stats['concurrent_msgs'],
+        'concurrent_library_tasks_run_to_completion': stats['concurrent_tasks'],
+        'executor_jobs_submitted_by_the_library': stats['executor_jobs'],
         'configurations_exercised': sorted(k[4:] for k in ctx.counters if k.startswith('cfg.')),
     })
     missing = [cfg_name({'mode': m, 'serializer': s, 'framing': f}) for m, s, f in CONFIGS
@@ -603,6 +751,11 @@ def run(ctx):
         'one sender at a time (concurrent emitters are excluded by the property); handlers run inline, or (server '
         'async_handlers=True, needed for Server.call) are started in spawn order after every delivered frame / '
         'after the whole flush (frames arriving back to back) and joined',
+        'concurrent bursts (asyncio): engine.io\'s dispatch is the real one (AsyncClient._receive_packet: a task per '
+        'message; AsyncSocket.receive awaited per packet; socket.io\'s start_background_task = ensure_future); the '
+        'loop is asyncio\'s FIFO loop; the loop\'s default executor is the harness\'s and serves a job only when the '
+        'loop has been idle for 24 turns (a slow pool thread); work handed to a private thread or pool, or delayed '
+        'by wall-clock time, is reported as unfinished rather than waited for',
         'acknowledgement ids count from 1 per namespace (client) / per sid (server): used to predict the frames',
     ]
     C.fold_proof_failures(ctx)
@@ -623,6 +776,11 @@ def replay(ctx, r):
             for m, s in zip(b['msgs'], obs['sent']):
                 print('  sent   %s(%r, %r, namespace=%r%s) -> %r; handler returns %r'
                       % (m['kind'], m['ev'], m['data'], m['ns'], ', callback' if m['cb'] else '', s['res'], m['ret']))
+            if b.get('deliver') == 'tasks':
+                print('  delivered concurrently (engine.io dispatch: a task per message / per handler), loop turns '
+                      'between packets %r, waiting executor jobs served %s; receiving handlers: %r; %r'
+                      % (b.get('gaps'), 'last first' if b.get('exec_lifo') else 'first first', obs['kinds'],
+                         obs['concurrent']))
             for e in obs['log']:
                 print('  impl  ', e)
             print('  wire  >', obs['fwd'])
